@@ -178,6 +178,10 @@ def rt_str(x="", *a):
         return int_to_str(x)
     if isinstance(x, SBool):
         return "True" if x else "False"
+    if not a and not isinstance(x, (str, bytes, int, float)):
+        f = getattr(type(x), "__str__", None)
+        if f is not None and "_ms_call" in getattr(f, "__globals__", {}):
+            return f(x)
     if isinstance(x, BaseException) and not a:
         if len(x.args) == 1 and isinstance(x.args[0], SStr) and type(x).__str__ is BaseException.__str__:
             return x.args[0]
@@ -249,6 +253,11 @@ def rt_fmt(value, conv, spec):
         value = _safe_str(value)
     elif conv == ord("a"):
         value = ascii(value)
+    elif not spec and not isinstance(value, (str, int, float)):
+        r = _safe_str(value)
+        if isinstance(r, SStr):
+            return r
+        value = r
     try:
         return format(value, spec)
     except Unsupported:
@@ -289,6 +298,9 @@ def _safe_repr(v):
 
 
 def _safe_str(v):
+    f = getattr(type(v), "__str__", None)
+    if f is not None and "_ms_call" in getattr(f, "__globals__", {}):
+        return f(v)  # instrumented __str__: may legitimately return a symbolic string
     if _deep_has_sym(v):
         return "sym-str"
     try:
